@@ -43,6 +43,47 @@ class Lib:
                   "lq_idhash", "lq_params", "lq_id", "lq_masterkey", "lq_secretkey", "lq_ciphertext"):
             self.size[n] = self.so.vk_sizeof(n.encode())
         self.word_bits = self.f("vk_word_bits")()
+        self.readonly = False
+        import os
+        if os.environ.get("VERIF_WRITEPROTECT"):
+            self.write_protect()
+
+    def write_protect(self):
+        """C20 monitor: make every writable mapping of the library image read-only; a later store to library-global state
+        faults (static initialisers - the CPU dispatch - have already run)."""
+        real = __import__("os").path.realpath(self.path)
+        libc = ctypes.CDLL(None, use_errno=True)
+        libc.mprotect.argtypes = [c_void_p, c_size_t, c_int]
+        import struct
+        base = None
+        with open("/proc/self/maps") as fh:
+            for line in fh:
+                parts = line.split()
+                if len(parts) > 5 and parts[5] == real:
+                    lo = int(parts[0].split("-")[0], 16)
+                    off = int(parts[2], 16)
+                    if off == 0:
+                        base = lo if base is None else min(base, lo)
+        assert base is not None, "library mapping not found"
+        regions = []
+        with open(real, "rb") as fh:
+            eh = fh.read(64)
+            assert eh[:4] == b"\x7fELF" and eh[4] == 2, "ELF64 expected"
+            e_phoff, = struct.unpack_from("<Q", eh, 32)
+            e_phentsize, e_phnum = struct.unpack_from("<HH", eh, 54)
+            for i in range(e_phnum):
+                fh.seek(e_phoff + i * e_phentsize)
+                ph = fh.read(e_phentsize)
+                p_type, p_flags, p_offset, p_vaddr, p_paddr, p_filesz, p_memsz, p_align = struct.unpack_from("<IIQQQQQQ", ph, 0)
+                if p_type == 1 and (p_flags & 2):          # PT_LOAD, writable (.data, .bss, .got ...)
+                    lo = (base + p_vaddr) & ~0xFFF
+                    hi = (base + p_vaddr + p_memsz + 0xFFF) & ~0xFFF
+                    regions.append((lo, hi - lo))
+        for lo, n in regions:
+            if libc.mprotect(lo, n, 1) != 0:
+                raise OSError("mprotect failed")
+        self.readonly = True
+        self.protected_regions = regions
 
     # ------------------------------------------------------------------ raw access
     def f(self, name):
